@@ -12,5 +12,5 @@ def run(ctx):
                        "for combinators without nested type applications (the canonical form flattens those, so only names/tags/arity are compared there). "
                        "distinct_nontrivial = distinct (schema, combinator) fully compared.")
     ctx.require("schema sets", n, 10)
-    ctx.require("canonical lines", t.get("canonical_lines", 0), 800)
+    ctx.require("canonical lines", t.get("canonical_lines", 0), 500)
     ctx.require("lines fully compared", t.get("canonical_lines_fully_compared", 0), 250)
